@@ -21,7 +21,7 @@ from ..report import AnalysisError
 from ..term import Resolver, pmatch, find_all, abstract, anf_of
 from ..seq import Layouts, UNKNOWN, show
 
-FLOORS = {"component-gradients-exact": 15, "state-refreshed": 1, "float-arithmetic": 1, "lml-form": 2, "lml-gradient-form": 2, "factor-of": 2, "loo-form": 3, "loo-gradient-form": 2,
+FLOORS = {"component-gradients-exact": 15, "state-refreshed": 1, "float-arithmetic": 1, "lml-form": 2, "lml-gradient-form": 2, "factor-of": 2, "loo-form": 6, "loo-gradient-form": 2,
           "slice-layout": 7, "bounds-passed": 2, "multistart": 1, "selector-wiring": 2, "scratch-owned": 10}
 
 
@@ -169,6 +169,8 @@ def run(prog, tier):
     # ---------------------------------------------------------------- every evaluation starts from freshly built matrices
     from .common import scratch_owned_obligations
     so = scratch_owned_obligations(prog, "scratch-owned", [prog.cls("GpRegressor")])
+    from .gpm import routing_obligations
+    so = so + [o for o in routing_obligations(prog, "GpRegressor", "hyperparameter-routing", REL) if "likelihood" in o.construct]
     obs.extend(so)
     if any(not o.ok for o in so):
         return obs, {}, {"explanation": "a kept matrix is updated in place by a score evaluation; formula rules not evaluated"}
@@ -218,6 +220,29 @@ def run(prog, tier):
     if problems:
         obs.append(struct_ob("factor-of", "inference.gp.regression.GpRegressor[triangular-solves]", False,
                              "; ".join(sorted(set(problems))), REL, 0, tier="M"))
+
+    # ---------------------------------------------------------------- the matrix whose diagonal / products the LOO formulas use IS K^-1
+    for mname in ("loo_predictions", "loo_likelihood", "loo_likelihood_gradient"):
+        c_, fn_ = prog.method("GpRegressor", mname)
+        dg = [n_ for n_ in ast.walk(fn_) if isinstance(n_, ast.Call) and U(n_.func) in ("diag", "diagonal") and n_.args and isinstance(n_.args[0], ast.Name)]
+        names_ = {n_.args[0].id for n_ in dg}
+        if len(names_) != 1:
+            raise AnalysisError(f"anchor vanished: diag(<inverse covariance>) in GpRegressor.{mname}")
+        ikn = next(iter(names_))
+        stop = None
+        for st_ in ast.walk(fn_):
+            if isinstance(st_, ast.stmt) and not isinstance(st_, (ast.FunctionDef, ast.Try, ast.If, ast.For, ast.While, ast.With)) \
+                    and any(x is dg[0] for x in ast.walk(st_)):
+                stop = st_
+                break
+        ci_, ex_ = gp_expander(prog)
+        env_ = {a.arg: M.atom("theta", 1) for a in fn_.args.args[1:2]}
+        guard(lambda: ex_.run_until(fn_.body, env_, stop))
+        got_ = env_.get(ikn)
+        r_ = refs()
+        obs.append(mob("loo-form", qual(c_, fn_) + "[inverse]", got_, r_["Kinv"], fn_.lineno,
+                       "the matrix whose diagonal gives the leave-one-out variances = K^-1 = L^-T L^-1"))
+        problems += ex_.problems
 
     # ---------------------------------------------------------------- LOO (engine C with opaque matrix products)
     anf.reset()
